@@ -25,7 +25,7 @@
    Class and comprehension scopes are covered by correspondence + execution oracle only. *)
 From Coq Require Import NArith List Bool.
 From Verif Require Import Scope.PySyntax Scope.Finder Scope.PySem Scope.Fragment Scope.FinderProofs Scope.UnusedProofs
-                          Scope.Stage2Final.
+                          Scope.Stage2Final Scope.Stage2Unused.
 Import ListNotations.
 
 (* stage 1, per occurrence: pyflyby reports a name rooted at n on line l  <->  the read of n on line l
@@ -271,3 +271,25 @@ Example C05_nonvacuous_stage2 :
      (3%nat, 82, Bound BOther); (3%nat, 88, Bound BOther); (3%nat, 89, Bound BOther); (3%nat, 82, Bound BOther); (3%nat, 90, Unbound);
      (5%nat, 92, UnboundLocal); (6%nat, 82, Bound BOther); (7%nat, 93, Bound BOther); (8%nat, 91, Bound BOther)].
 Proof. vm_compute. repeat split. Qed.
+
+
+(* ---------- the unused side on stage 2 (for C02) ----------
+   Fragment.u2_block: stage-2 code whose import statements are top-level statements of the module binding one-component
+   keys (what tidy-imports edits); Fragment.imports_once: every imported name is bound exactly once at module level and is
+   no builtin / initial-namespace name.  Proof: the tracking-on run, erased, is the tracking-off run (Stage2Erase.v), so
+   the stage-2 simulation gives the structure; on top of it, every read PySem resolves to an import has either marked
+   that import's checker or sits in the deferred list with a stack on which the final check will (Stage2Unused.v). *)
+Theorem C05_unused_sound_stage2 : forall bi ns p, u2_block p = true -> star_free bi ns = true ->
+  imports_once bi ns p = true -> NoDup (imp_events (bsrcs_block false p)) ->
+  forall l i, In (l, i) (snd (finder bi ns true p)) ->
+  forall ln n, ~ In (ln, n, Bound (BImp l i)) (pysem bi ns p).
+Proof. exact u2_unused_sound. Qed.
+Print Assumptions C05_unused_sound_stage2.
+
+(* what the fragment excludes: a function-local import read by a nested function that is defined before it (F35) *)
+Theorem C05_unused_sound_refuted_local_import :
+  ~ unused_sound_at [SDef 1 90 [] (Params [] [] None [] None [] []) None
+                       [SDef 2 91 [] (Params [] [] None [] None [] []) None [SExpr 3 (ELoad 92 [])];
+                        SImport 4 [([92], None)]; SExpr 5 (EOp [ELoad 91 []])]].
+Proof. unfold unused_sound_at. intro H. apply (H 4%nat ([92], [92])) with (ln := 3%nat) (n := 92); vm_compute; auto. Qed.
+Print Assumptions C05_unused_sound_refuted_local_import.
